@@ -52,6 +52,7 @@ def step (line : String) : String :=
   | "so" :: rest => VC2.Model.SeqHeader.handleSo rest
   | "sp" :: rest => VC2.Model.SlicePad.handleSp rest
   | "pg" :: rest => VC2.Model.Picture.handlePg rest
+  | "ps" :: rest => VC2.Model.Picture.handlePs rest
   | "dc" :: rest => VC2.Model.Picture.handleDc rest
   | "ff" :: rest => VC2.Model.FileFormat.handleFf rest
   | "vs" :: rest => VC2.Model.Constraint.handleVs rest
